@@ -59,6 +59,48 @@ def mutate(obj):
     return False
 
 
+def mutate_deep(obj):
+    """spoil a returned container and the containers inside it"""
+    done = False
+    if isinstance(obj, dict):
+        for v in list(obj.values()):
+            if isinstance(v, (dict, list)):
+                done = mutate_deep(v) or done
+        if obj:
+            k = sorted(obj.keys(), key=str)[-1]
+            del obj[k]
+            done = True
+    elif isinstance(obj, list) and obj:
+        obj[0] = 99.0
+        done = True
+    return done
+
+
+# directed stream: a returned container belongs to the caller -- spoiling it must not change what the same call returns next
+for i in range(max(3, S.budget // 25)):
+    b = sample_E(rng)
+    a = E_args(b)
+    clear_all()
+    fw.use_sf, fw.use_sqrtcx = True, True
+    for n, f in sorted(funcs(a).items()):
+        try:
+            r1 = f()
+        except Exception:
+            continue
+        if not isinstance(r1, (dict, list)):
+            continue
+        snap = copy.deepcopy(canon(r1))
+        if not mutate_deep(r1):
+            continue
+        try:
+            r2 = canon(f())
+        except Exception as e:
+            r2 = ('exc', type(e).__name__)
+        if r2 != snap:
+            S.violation(f'C08:aliased:{n}', f'{n} returned {str(r2)[:120]} after the caller edited the container returned by the previous identical call '
+                        f'(first result {str(snap)[:120]})', history=[['call', n], ['spoil-returned'], ['call', n]], args=a, switches=(True, True))
+        S.count(repr(('alias', n, a)), 'alias-probe')
+
 for i in range(S.budget):
     pool = []
     for _ in range(2):
@@ -108,7 +150,12 @@ for i in range(S.budget):
                     break
                 # re-warm the caches with the same call so later steps can hit them (the reference run cleared them)
                 try:
-                    funcs(a)[n]()
+                    warm = funcs(a)[n]()
+                    # the object a cache now holds (if any) is the re-warmed one: later mutations must be able to reach it
+                    if isinstance(warm, (dict, list)):
+                        returned.append(warm)
+                        if isinstance(warm, dict):
+                            returned.extend(v for v in warm.values() if isinstance(v, (dict, list)))
                 except Exception:
                     pass
     finally:
